@@ -51,9 +51,26 @@ fn process_setup(subscriber: bool, cpu: Option<usize>) {
     std::thread::spawn(|| {
         let limit: u64 = std::env::var("VERIF_WATCHDOG_S").ok().and_then(|s| s.parse().ok()).unwrap_or(0);
         if limit > 0 {
-            std::thread::sleep(Duration::from_secs(limit));
-            eprintln!("HARNESS-ERROR watchdog: process exceeded {limit}s of real time");
-            std::process::exit(2);
+            // two ways out: the overall limit, or no scheduling step at all for `stuck` seconds
+            // (a simulated thread sits in a real lock held by a descheduled one, or the code under
+            // test spins without reaching a seam)
+            let stuck: u64 = std::env::var("VERIF_STUCK_S").ok().and_then(|s| s.parse().ok()).unwrap_or(45);
+            let t0 = Instant::now();
+            let mut last = (detsim::global_steps(), Instant::now());
+            loop {
+                std::thread::sleep(Duration::from_millis(500));
+                let now = detsim::global_steps();
+                if now != last.0 || !detsim::run_active() {
+                    last = (now, Instant::now());
+                } else if last.1.elapsed().as_secs() >= stuck {
+                    eprintln!("HARNESS-ERROR watchdog: no scheduling step for {stuck}s of real time (a simulated thread is stuck outside the simulator's seams)");
+                    std::process::exit(2);
+                }
+                if t0.elapsed().as_secs() >= limit {
+                    eprintln!("HARNESS-ERROR watchdog: process exceeded {limit}s of real time");
+                    std::process::exit(2);
+                }
+            }
         }
     });
 }
